@@ -22,11 +22,11 @@ EXPECT = {-1: "110100", 0: "011010", 1: "000111"}
 
 class C01(Prop):
     id = "C01"
-    lean_modules = []
-    theorems_ = [
-        "C01.ops_agree", "C01.eq_agrees", "C01.cmp_eq_pep440", "C01.trichotomy", "C01.lt_trans",
-        "C01.eq_equivalence", "C01.eq_iff_key_eq", "C01.hash_agrees", "C01.spec_total",
-        "C01.sorted_unique", "C01.spelling_independent",
+    lean_modules = ["PkgProofs.Props.C01"]
+    theorems = [
+        "C01.ops_agree", "C01.eq_agrees", "C01.keyOrd_total", "C01.cmp_eq_pep440", "C01.trichotomy",
+        "C01.lt_trans", "C01.eq_equivalence", "C01.eq_iff_key_eq", "C01.hash_agrees",
+        "C01.le_total_preorder", "C01.spec_total", "C01.sorted_unique",
     ]
     rule = ("pairs/triples of spelled versions drawn from a pool of structures with near neighbours "
             "(epoch x trailing zeros x pre/post/dev x mixed local segments x every alternate spelling); "
